@@ -722,8 +722,8 @@ Proof.
       destruct (R7 (fst x)) as (_ & V2 & _). rewrite V2. unfold supply_of. rewrite Eb. lia.
     + apply forallb_forall. intros e _. destruct (R7 (fst e)) as (V1 & _). rewrite V1.
       destruct (aget (fst e) (s_reg s)) as [t|] eqn:Et; [|reflexivity]. eapply aget_some_key. exact Et.
-  - apply rel_intro; cbn [k_now k_params k_psnap k_ysnap k_native k_ubis]; try congruence; try assumption.
-    intros d. eapply view_ok_ext; try apply R7; reflexivity.
+  - apply rel_intro; cbn [k_now k_params k_psnap k_ysnap k_native k_ubis]; try congruence; try assumption;
+    try (intros d; eapply view_ok_ext; try apply R7; reflexivity).
 Qed.
 
 (* ---------------------------------------------------------------- every operation, then histories *)
